@@ -38,6 +38,7 @@ type storeState struct {
 	completedSnapshots []*jobSnapshot
 	pendingSnapshot    *jobSnapshot
 	checkpointID       uint64 // The last used, monotonically increasing checkpoint ID
+	abandonedThrough   uint64 // Checkpoints up to this ID that were not published when an assembly was replaced never publish
 }
 
 type NewStoreParams struct {
@@ -171,6 +172,10 @@ func (s *Store) AbandonPendingCheckpoint() {
 	s.stateMu.Lock()
 	defer s.stateMu.Unlock()
 	s.state.pendingSnapshot = nil
+	// A fully acknowledged checkpoint whose snapshot is still being written is
+	// abandoned too: the new assembly is deployed from the current checkpoint,
+	// and must not be told later to retain only one it never restored.
+	s.state.abandonedThrough = s.state.checkpointID
 }
 
 func (s *Store) RegisterSourceSplitter(splitter connectors.SourceSplitter) {
@@ -216,10 +221,11 @@ func (s *Store) finishSnapshotAsync(snap *jobSnapshot) (uri string, err error) {
 	// Accessing state to update completedSnapshots
 	s.stateMu.Lock()
 
-	if n := len(s.state.completedSnapshots); n > 0 && s.state.completedSnapshots[n-1].id > snap.id {
+	if n := len(s.state.completedSnapshots); (n > 0 && s.state.completedSnapshots[n-1].id > snap.id) || snap.id <= s.state.abandonedThrough {
 		// A newer checkpoint was published while this one was still being
-		// written: it is obsolete already and must neither replace the newer one
-		// nor be announced for retention.
+		// written, or the assembly that took it was replaced meanwhile: it is
+		// obsolete already and must neither replace the current one nor be
+		// announced for retention.
 		s.stateMu.Unlock()
 		go func() {
 			path := filepath.Join(s.checkpointsPath, "job-"+pathSegment(snap.id)+".snapshot")
